@@ -37,7 +37,7 @@ mod harness {
     fn needed_la(t: &TokenType) -> usize {
         use TokenType::*;
         match t {
-            If | Else | While | Array | Of | Proc | Ref | Type | Var | Ident(_) | Int(_) | Hex(_) | Char(_) | Colon | Lt | Gt | Divide => 1,
+            If | Else | While | Array | Of | Proc | Ref | Type | Var | Ident(_) | Int(_) | Hex(_) | Char(_) | Colon | Lt | Gt | Divide | Comment(_) => 1,
             Unknown(s) => if s == "'" { 1 } else { 0 },
             _ => 0,
         }
